@@ -204,7 +204,7 @@ def upload_dir(conn, localpath, remotepath, filter=None, chunk_size=STREAM_CHUNK
     if not conn.modules.os.path.isdir(remotepath):
         conn.modules.os.makedirs(remotepath)
     for fn in os.listdir(localpath):
-        if not filter or filter(fn):
+        if filter is None or filter(fn):
             lfn = os.path.join(localpath, fn)
             rfn = conn.modules.os.path.join(remotepath, fn)
             upload(conn, lfn, rfn, filter=filter, ignore_invalid=True, chunk_size=chunk_size)
@@ -243,7 +243,7 @@ def download_dir(conn, remotepath, localpath, filter=None, chunk_size=STREAM_CHU
     if not os.path.isdir(localpath):
         os.makedirs(localpath)
     for fn in conn.modules.os.listdir(remotepath):
-        if not filter or filter(fn):
+        if filter is None or filter(fn):
             rfn = conn.modules.os.path.join(remotepath, fn)
             lfn = os.path.join(localpath, fn)
             download(conn, rfn, lfn, filter=filter, ignore_invalid=True, chunk_size=chunk_size)
